@@ -41,7 +41,7 @@ func verifBuildRuleObject(n int, maxLen int, withDisabled bool) (*ObjectSchema, 
 			required:   nondetBool(nm + ".required"),
 			hasDefault: nondetBool(nm + ".hasDefault"),
 			reqIf:      verifRuleList(nm+".reqIf", n, maxLen),
-			reqIfNot:   verifRuleList(nm+".reqIfNot", n, maxLen),
+			reqIfNot:   verifRuleList(nm+".reqIfNot", n, maxLen+1), // "none of several" differs from "not all of several"
 			conflicts:  verifRuleList(nm+".conflicts", n, maxLen),
 		}
 		if withDisabled {
@@ -248,7 +248,13 @@ func VerifC03_OneOfDispatch() {
 	inlined := nondetBool("inlined")
 	xmin, ymax := verifOptInt64("xmin"), verifOptInt64("ymax")
 	mk := func(id string, t Type) *ObjectSchema {
-		props := map[string]*PropertySchema{"v": NewPropertySchema(t, nil, true, nil, nil, nil, nil, nil)}
+		props := map[string]*PropertySchema{
+			"v": NewPropertySchema(t, nil, true, nil, nil, nil, nil, nil),
+			// members carry presence rules of their own: w conflicts with v2, v2 is required if w is set
+			"w":  NewPropertySchema(NewIntSchema(nil, nil, nil), nil, false, nil, nil, []string{"v2"}, nil, nil),
+			"v2": NewPropertySchema(NewIntSchema(nil, nil, nil), nil, false, nil, nil, nil, nil, nil),
+			"z":  NewPropertySchema(NewIntSchema(nil, nil, nil), nil, false, []string{"w"}, nil, nil, nil, nil),
+		}
 		if inlined {
 			props["d"] = NewPropertySchema(NewStringSchema(nil, nil, nil), nil, true, nil, nil, nil, nil, nil)
 		}
@@ -265,6 +271,17 @@ func VerifC03_OneOfDispatch() {
 	if hasD {
 		raw["d"] = d
 	}
+	hasW, hasV2, hasZ := nondetBool("hasW"), nondetBool("hasV2"), nondetBool("hasZ")
+	if hasW {
+		raw["w"] = int64(1)
+	}
+	if hasV2 {
+		raw["v2"] = int64(2)
+	}
+	if hasZ {
+		raw["z"] = int64(3)
+	}
+	rulesOK := !(hasW && hasV2) && !(hasW && !hasZ)
 	xOK, yOK := true, true
 	if xmin != nil {
 		xOK = v >= *xmin
@@ -272,7 +289,7 @@ func VerifC03_OneOfDispatch() {
 	if ymax != nil {
 		yOK = v <= *ymax
 	}
-	accept := vAnd(hasD, vOr(vAnd(d == "x", xOK), vAnd(d == "y", yOK)))
+	accept := vAnd(vAnd(hasD, rulesOK), vOr(vAnd(d == "x", xOK), vAnd(d == "y", yOK)))
 	got, err := s.Unserialize(raw)
 	verifAssert("C03/oneof/accepted-iff-selected-member-accepts", vIff(err == nil, accept))
 	if err == nil {
@@ -285,6 +302,15 @@ func VerifC03_OneOfDispatch() {
 	nat := map[string]any{"v": v}
 	if hasD {
 		nat["d"] = d
+	}
+	if hasW {
+		nat["w"] = int64(1)
+	}
+	if hasV2 {
+		nat["v2"] = int64(2)
+	}
+	if hasZ {
+		nat["z"] = int64(3)
 	}
 	verr := s.Validate(nat)
 	verifAssert("C03/oneof/validate-accepted-iff-selected-member-accepts", vIff(verr == nil, accept))
